@@ -811,7 +811,14 @@ pub fn generate(seed: u64, tier: &str, property: &str) -> RegScenario {
         config,
         hash_base: rng.next_u64(),
         contexts,
-        probe: Probe { names, blocks, comps },
+        probe: {
+            let delims_for_oneoffs = h.g.cfg.delims.clone();
+            // one-off calls of up to four components (self-closing; arguments missing on purpose:
+            // what matters is whether the call is *accepted*), under the run's delimiters
+            let d = &delims_for_oneoffs;
+            let oneoffs: Vec<String> = comps.iter().take(4).map(|c| format!("one-off {} <{}/> {}", d.vs, c.name, d.ve)).collect();
+            Probe { names, blocks, comps, oneoffs }
+        },
         ops: h.ops,
         notes: h.notes,
         fresh_seed: rng.next_u64(),
